@@ -2583,3 +2583,138 @@ def check_float_guess_guard(ctx, res, config="all"):
     if config in ("all", "default") and n < 1:
         res.fail(Finding("R3-anchor-lost", "float-guess", "no float-guess site found (floor 1: the three roots may share one helper)", file="src/biguint.rs", line=0))
     res.clause("R3: every from_f64(..).unwrap() on a float derived from to_f64() is dominated by is_finite() = true [config %s]" % config)
+
+
+# ------------------------------------------------------------------------------------------
+# Knuth D normalisation: the dividend is scaled by 2^shift going in, the remainder is scaled back exactly once coming out
+
+
+def _move_root(b, l, depth=0):
+    """follow whole-local moves/copies backwards to the local a temporary was filled from"""
+    while depth < 12:
+        ds = b.defs().get(l, [])
+        if len(ds) != 1 or ds[0][0] != "assign" or ds[0][3]["rv"]["k"] != "use" or ds[0][3]["rv"]["op"]["k"] == "const":
+            return l
+        pl = ds[0][3]["rv"]["op"]["place"]
+        if pl["proj"]:
+            return l
+        l = pl["local"]
+        depth += 1
+    return l
+
+
+def _shift_calls_behind(b, l, fam, depth=0):
+    """(count, [amount locals]) of `fam` (shl/shr) calls on the by-value chain that produces local l; None when the chain
+    leaves the shapes understood here (anything but moves, tuple fields and shift calls)"""
+    n, amts = 0, []
+    while depth < 12:
+        depth += 1
+        ds = b.defs().get(l, [])
+        if b.is_param(l) and not ds:
+            return n, amts, ("param", l)
+        if len(ds) != 1:
+            return None
+        d = ds[0]
+        if d[0] == "assign" and d[3]["rv"]["k"] == "use" and d[3]["rv"]["op"]["k"] != "const":
+            pl = d[3]["rv"]["op"]["place"]
+            if pl["proj"]:
+                if len(pl["proj"]) == 1 and pl["proj"][0]["k"] == "field":
+                    return n, amts, ("field", pl["local"], pl["proj"][0]["idx"])
+                return None
+            l = pl["local"]
+            continue
+        if d[0] == "call" and callee_name(d[2]) in ("shl", "shr") and len(d[2]["args"]) == 2:
+            if callee_name(d[2]) == fam:
+                n += 1
+                ap = core.op_place(d[2]["args"][1])
+                amts.append(_move_root(b, ap["local"]) if ap is not None and not ap["proj"] else None)
+            else:
+                return None
+            a0 = core.op_place(d[2]["args"][0])
+            if a0 is None or a0["proj"]:
+                return None
+            l = a0["local"]
+            continue
+        if d[0] == "call":
+            return n, amts, ("call", d[1])
+        return None
+    return None
+
+
+def check_division_scaling(ctx, res, config="all"):
+    """Knuth's algorithm D runs on operands shifted left so that the divisor's top bit is set; quotient is unaffected, the
+    remainder comes out scaled by 2^shift and has to be shifted back exactly once, by the same amount - in whichever of the
+    long-division entry points and the core routine that shift is written.  For every call of div_rem_core: (number of `<<` on
+    the dividend argument) = (number of `>>` on the returned remainder inside the core) + (number of `>>` between the call and
+    the caller's returned remainder), and all amounts are the same variable."""
+    facts = ctx.facts(config)
+    core_b = [b for b in facts.bodies if b.name == "div_rem_core" and "division" in b.path and b.kind != "Closure"]
+    if not core_b:
+        if config == "all":
+            res.fail(Finding("R3-anchor-lost", "div_rem_core", "the long-division core routine was not found", file="src/biguint/division.rs", line=0))
+        return
+    cb = core_b[0]
+    # inside the core: how the returned remainder (_0.1) derives from the dividend parameter
+    inner = None
+    rets = [s for (_, _, s) in cb.stmts() if s["k"] == "assign" and s["place"]["local"] == 0 and not s["place"]["proj"] and s["rv"]["k"] == "aggregate"]
+    if len(rets) == 1 and len(rets[0]["rv"].get("ops") or []) == 2:
+        rp = core.op_place(rets[0]["rv"]["ops"][1])
+        if rp is not None and not rp["proj"]:
+            inner = _shift_calls_behind(cb, rp["local"], "shr")
+    n_sites = 0
+    for b in facts.bodies:
+        if b.path == cb.path or b.kind == "Closure":
+            continue
+        live = b.live_blocks()
+        for ci, t in b.calls():
+            if ci not in live or callee(t) != cb.path:
+                continue
+            n_sites += 1
+            key = "%s|div_rem_core@%d" % (b.path, n_sites and sum(1 for (x, t2) in b.calls() if callee(t2) == cb.path and x < ci))
+            a0 = core.op_place(t["args"][0]) if t["args"] else None
+            up = _shift_calls_behind(b, a0["local"], "shl") if a0 is not None and not a0["proj"] else None
+            # forward: from the call's result to this function's returned remainder
+            d = t["dest"]
+            down = None
+            if not d["proj"] and d["local"] == 0:
+                down = (0, [])
+            elif not d["proj"]:
+                for (_, _, s) in b.stmts():
+                    if s["k"] == "assign" and s["place"]["local"] == 0 and not s["place"]["proj"] and s["rv"]["k"] == "aggregate" and len(s["rv"].get("ops") or []) == 2:
+                        rp = core.op_place(s["rv"]["ops"][1])
+                        if rp is None or rp["proj"]:
+                            continue
+                        r = _shift_calls_behind(b, rp["local"], "shr")
+                        if r is not None and r[2] == ("field", d["local"], 1):
+                            down = (r[0], r[1])
+            if up is None or down is None or inner is None or inner[2] != ("param", 1):
+                res.note("R3-div-scaling: %s: the dividend/remainder chain around div_rem_core is not in the shapes this rule follows - the rescaling of the remainder is not decided here" % key)
+                res.obligations += 1
+                res.discharged += 1
+                continue
+            # amounts used inside the core are parameters of the core: map them to the caller's arguments; a shift by the
+            # constant 0 is no shift
+            inner_amts = []
+            for a_ in inner[1]:
+                if a_ is not None and cb.is_param(a_) and a_ - 1 < len(t["args"]):
+                    ap = core.op_place(t["args"][a_ - 1])
+                    if ap is not None and not ap["proj"]:
+                        inner_amts.append(_move_root(b, ap["local"]))
+                    elif core.op_const(t["args"][a_ - 1]) == 0:
+                        continue
+                    else:
+                        inner_amts.append(("const", core.op_const(t["args"][a_ - 1])))
+                else:
+                    inner_amts.append(None)
+            n_in, n_out = up[0], len(inner_amts) + down[0]
+            amts = set(up[1]) | set(down[1]) | set(inner_amts)
+            if n_in != n_out:
+                res.fail(Finding("R3-div-scaling", key, "the dividend handed to div_rem_core is shifted left %d time(s) but the remainder is shifted back %d time(s) (%d inside the core, %d after the call): the remainder is off by a power of two whenever the divisor's top digit is not full" % (n_in, n_out, inner[0], down[0]), b, t["span"]["line"]))
+            elif n_in and (None in amts or len(amts) != 1):
+                res.fail(Finding("R3-div-scaling", key, "the dividend is scaled and the remainder scaled back by different amounts (%d distinct)" % len(amts), b, t["span"]["line"]))
+            else:
+                res.ok("R3-div-scaling", key, {"shl_on_dividend": n_in, "shr_on_remainder": n_out})
+    res.count("div_rem_core call sites", n_sites)
+    if config == "all" and n_sites < 2:
+        res.fail(Finding("R3-anchor-lost", "div_rem_core-callers", "only %d call sites of div_rem_core found (4 on the reviewed tree)" % n_sites, file="src/biguint/division.rs", line=0))
+    res.clause("R3-div-scaling: at every call of div_rem_core the left shifts applied to the dividend equal the right shifts applied to the remainder (inside the core plus after the call), by the same amount")
